@@ -428,8 +428,12 @@ META = {
              "BF state and tied on every run by byte-exact correspondence (incl. _at_trailing_cr and newlines) over "
              "CR/CRLF/LF-heavy chunked streams and a directed CR-at-chunk-end corpus, with a model-independent oracle "
              "for whole-line programs (readline()/next/list(f)/readlines: lines == the stream with CRLF/CR translated "
-             "to LF, whatever the chunking); the Lean theorems listed under level are about the non-U code path — U "
-             "mode is tied and oracle-checked, not yet proved. The seekable-file branches added to file.py for C27 "
+             "to LF, whatever the chunking); proved for U mode (every chunking, _at_trailing_cr included): "
+             "universal_readline_exact (readline() returns the first universal-newline line of the pending bytes and "
+             "leaves exactly the rest), universal_line_shape, universal_iteration_exact and "
+             "universal_lines_independent_of_chunking (two chunkings of one stream iterate to the same lines); "
+             "readline(size), readlines(hint) and mixing raw read() with line calls in U mode are tied by "
+             "correspondence only (a raw read() may legitimately return the LF half of a split CRLF). The seekable-file branches added to file.py for C27 "
              "(flush before read, read-ahead dropped before a write) are in the model but inactive for a stream "
              "(seekable() is False). Not covered: behaviour when the underlying _read/_write raises (the model mirrors "
              "it but the C42 stream never raises). Theorems assume _DEFAULT_BUFSIZE >= 1 and that _write accepts at "
